@@ -237,4 +237,5 @@ func runC07(c *Ctx) {
 	c07Shape(c)
 	c07Codec(c)
 	c07Proof(c)
+	c07Committer(c)
 }
